@@ -1048,6 +1048,221 @@ fn harden(gn: &mut Gen, thorough: bool) {
     tiny_times_huge(gn, thorough);
     edge_of_range(gn, thorough);
     mixed_extremes(gn, thorough);
+    sparsity(gn, thorough);
+}
+
+/// SPARSITY PATTERNS (fifth seeded round): matrices whose EXACT ZEROS follow a pattern an "optimised" elimination could
+/// exploit - banded with lower and upper half bandwidth 0..4 independently (diagonal, bidiagonal, tridiagonal,
+/// pentadiagonal, Hessenberg-like, one-sided bands), orders 5..12, exact-zero corners only, arrowhead, block-diagonal,
+/// and row / symmetric permutations of those - with entries that FORCE row exchanges (the scaled pivot search prefers a row
+/// one to four rows below the diagonal, so that fill-in reaches l + u super-diagonals) as well as ones that need none.
+/// Real, small-integer, unsigned-byte and dyadic entries (every container kind rotates in; the harness itself runs all
+/// applicable kinds on each request); unknowns of order one (b = A * ones, exact for the integer styles) or a random
+/// right-hand side.  Judged by the backward-error clauses 1 / 1b of the plug-in.
+fn sparsity(gn: &mut Gen, thorough: bool) {
+    let reps = if thorough { 8 } else { 1 };
+    // one entry of the given style: 0 real, 1 small integer, 2 byte, 3 dyadic
+    fn entry(rng: &mut Rng, style: usize) -> f64 {
+        match style {
+            0 => {
+                let x = rng.uniform(0.1, 1.0);
+                if rng.chance(1, 2) { -x } else { x }
+            }
+            1 => {
+                let x = rng.range(1, 4) as f64;
+                if rng.chance(1, 2) { -x } else { x }
+            }
+            2 => rng.range(1, 9) as f64,
+            _ => {
+                let x = rng.range(1, 16) as f64 / 8.0;
+                if rng.chance(1, 2) { -x } else { x }
+            }
+        }
+    }
+    fn finish(gn: &mut Gen, n: usize, v: Vec<f64>, style: usize, k: usize) {
+        let g = Grid { h: n, w: n, v };
+        // b = A * ones (exact for integer / dyadic entries), A * (1, -2, 3, ..), or anything
+        let b: Vec<f64> = match k % 3 {
+            0 => (0..n).map(|i| (0..n).map(|j| g.v[i * n + j]).sum()).collect(),
+            1 => (0..n).map(|i| (0..n).map(|j| g.v[i * n + j] * ((j % 5) as f64 - 2.0)).sum()).collect(),
+            _ => {
+                if style == 0 { gn.rhs(n) } else { small_rhs(&mut gn.rng, n) }
+            }
+        };
+        let tol = gn.tol();
+        gn.gauss(&g, &b, tol);
+    }
+    let mut k = 0usize;
+    for _ in 0..reps {
+        // (a) banded, every (l, u) in 0..=4 x 0..=4 and every order 5..=12, four entry styles rotating, three ways of
+        // (not) forcing exchanges
+        for n in 5..=12usize {
+            for l in 0..=4usize {
+                for u in 0..=4usize {
+                    for force in 0..3usize {
+                        k += 1;
+                        let style = k % 4;
+                        let mut v = vec![0.0; n * n];
+                        for i in 0..n {
+                            for j in 0..n {
+                                if (j <= i && i - j <= l) || (j > i && j - i <= u) {
+                                    v[i * n + j] = entry(&mut gn.rng, style);
+                                }
+                            }
+                        }
+                        match force {
+                            // as drawn: exchanges happen where the scaled ratios say so
+                            0 => {}
+                            // the entry d rows below the diagonal (d = l, or anything in 1..=l) is the largest of its row
+                            // and column, the diagonal entry is small within its row: the pivot comes from row k + d
+                            1 if l > 0 => {
+                                for c in 0..n {
+                                    let d = if gn.rng.chance(1, 2) { l } else { 1 + gn.rng.below(l as u64) as usize };
+                                    if c + d < n && gn.rng.chance(3, 4) {
+                                        let big = match style { 0 => gn.rng.uniform(2.0, 4.0), 1 => gn.rng.range(5, 9) as f64, 2 => gn.rng.range(20, 255) as f64, _ => 4.0 };
+                                        v[(c + d) * n + c] = big * if style == 2 { 1.0 } else { sign(&mut gn.rng) };
+                                    }
+                                }
+                            }
+                            // rows of very different scale (the SCALED ratio decides, not the entry) in a random order
+                            _ => {
+                                for i in 0..n {
+                                    if style != 2 && gn.rng.chance(1, 2) {
+                                        let s = pow2(gn.rng.range(-3, 3));
+                                        for j in 0..n {
+                                            v[i * n + j] *= s;
+                                        }
+                                    }
+                                    // weak diagonal
+                                    if gn.rng.chance(1, 2) && style != 2 {
+                                        v[i * n + i] *= 0.125;
+                                    } else if style == 2 && gn.rng.chance(1, 2) {
+                                        v[i * n + i] = 1.0;
+                                        if i + l < n && l > 0 {
+                                            v[(i + l) * n + i] = gn.rng.range(9, 99) as f64;
+                                        }
+                                    }
+                                }
+                            }
+                        }
+                        finish(gn, n, v, style, k);
+                    }
+                }
+            }
+        }
+        // (b) exact-zero corners only (half bandwidths n-2, n-3 on either side), arrowheads, block-diagonal matrices, and
+        // row / symmetric / column permutations of banded matrices; orders 5..=12
+        for n in 5..=12usize {
+            for shape in 0..12usize {
+                k += 1;
+                let style = k % 4;
+                let mut v = vec![0.0; n * n];
+                let mut set = |v: &mut Vec<f64>, i: usize, j: usize, rng: &mut Rng| v[i * n + j] = entry(rng, style);
+                match shape {
+                    0 | 1 | 2 => {
+                        // zero corners of side c (1..=3) in both, the upper or the lower corner
+                        let c = 1 + gn.rng.below(3) as usize;
+                        for i in 0..n {
+                            for j in 0..n {
+                                let up = j > i && j - i >= n - c;
+                                let lo = i > j && i - j >= n - c;
+                                if !((up && shape != 2) || (lo && shape != 1)) {
+                                    set(&mut v, i, j, &mut gn.rng);
+                                }
+                            }
+                        }
+                    }
+                    3 | 4 => {
+                        // arrowhead pointing up-left or down-right, weak or strong tip
+                        let t = if shape == 3 { 0 } else { n - 1 };
+                        for i in 0..n {
+                            set(&mut v, i, i, &mut gn.rng);
+                            set(&mut v, t, i, &mut gn.rng);
+                            set(&mut v, i, t, &mut gn.rng);
+                        }
+                        if gn.rng.chance(1, 2) {
+                            v[t * n + t] *= 0.125;
+                        }
+                    }
+                    5 | 6 => {
+                        // block diagonal: dense blocks of order 1..=4 (shape 6: one coupling entry between neighbours)
+                        let mut s = 0;
+                        while s < n {
+                            let m = (1 + gn.rng.below(4) as usize).min(n - s);
+                            for i in s..s + m {
+                                for j in s..s + m {
+                                    set(&mut v, i, j, &mut gn.rng);
+                                }
+                            }
+                            if shape == 6 && s > 0 {
+                                set(&mut v, s, s - 1, &mut gn.rng);
+                            }
+                            s += m;
+                        }
+                    }
+                    _ => {
+                        // a banded matrix (l, u in 1..=3, dominant-free) with rows, columns or both permuted
+                        let l = 1 + gn.rng.below(3) as usize;
+                        let u = 1 + gn.rng.below(3) as usize;
+                        let mut w = vec![0.0; n * n];
+                        for i in 0..n {
+                            for j in 0..n {
+                                if (j <= i && i - j <= l) || (j > i && j - i <= u) {
+                                    w[i * n + j] = entry(&mut gn.rng, style);
+                                }
+                            }
+                        }
+                        let mut p: Vec<usize> = (0..n).collect();
+                        match shape % 3 {
+                            // one exchange of two rows, a cyclic shift, a full shuffle
+                            0 => {
+                                let a = gn.rng.below(n as u64) as usize;
+                                let b = gn.rng.below(n as u64) as usize;
+                                p.swap(a, b);
+                            }
+                            1 => p.rotate_left(1 + gn.rng.below(2) as usize),
+                            _ => {
+                                for i in (1..n).rev() {
+                                    let j = gn.rng.below(i as u64 + 1) as usize;
+                                    p.swap(i, j);
+                                }
+                            }
+                        }
+                        let sym = shape >= 10;
+                        for i in 0..n {
+                            for j in 0..n {
+                                v[i * n + j] = w[p[i] * n + if sym { p[j] } else { j }];
+                            }
+                        }
+                    }
+                }
+                finish(gn, n, v, style, k);
+            }
+        }
+        // (c) the classical difference / spline / smoothing stencils with rows of a stronger neighbour below: second and
+        // fourth differences (1 -4 6 -4 1), (1 4 1) / 6, upwind (−1 1), with one sub-diagonal replaced by a large value
+        for n in 5..=12usize {
+            for (sl, st) in [(2usize, vec![1.0, -4.0, 6.0, -4.0, 1.0]), (1, vec![1.0, -2.0, 1.0]), (2, vec![1.0, 2.0, 1.0, 2.0, 1.0]), (3, vec![2.0, 0.0, 1.0, 1.0, 0.0, 3.0, 1.0]), (2, vec![4.0, 1.0, 2.0, 1.0, 2.0])] {
+                k += 1;
+                let mut v = vec![0.0; n * n];
+                for i in 0..n {
+                    for (t, c) in st.iter().enumerate() {
+                        let j = i as i64 + t as i64 - sl as i64;
+                        if j >= 0 && (j as usize) < n {
+                            v[i * n + j as usize] = *c;
+                        }
+                    }
+                }
+                // a strong entry two or three rows below the diagonal in some columns
+                for c in 0..n {
+                    if c + sl < n && gn.rng.chance(1, 2) {
+                        v[(c + sl) * n + c] = gn.rng.range(5, 9) as f64;
+                    }
+                }
+                finish(gn, n, v, 1, k);
+            }
+        }
+    }
 }
 
 /// MIXED EXTREMES INSIDE ONE OBJECT (fourth seeded round): rows near the bottom of the number range (entries 2^-1056 ..
